@@ -190,6 +190,14 @@ Theorem c19_compact_tight : forall d s, Json.tight_at d s = true ->
 Proof. exact JsonCompact.compact_tight. Qed.
 Print Assumptions c19_compact_tight.
 
+(* each request maps to ONE JSON-RPC call, and to none when the parser rejects it: the reply depends on the
+   server behind the getter only through the result of the call (method, params) the parser produced *)
+Theorem c19_getter_one_call : forall p perr o srv1 srv2,
+  (match p with PRErr => True | PROk m ps => srv1 m ps = srv2 m ps end) ->
+  getter_reply p perr o srv1 = getter_reply p perr o srv2.
+Proof. exact getter_call_locality. Qed.
+Print Assumptions c19_getter_one_call.
+
 (* every error object whose data fit is valid JSON; the 400 body needs no hypothesis at all *)
 Theorem c19_error_object_valid_json : forall e b,
   data_fits e -> Wire.marshal_error e = Some b -> Json.valid b = true.
